@@ -47,6 +47,8 @@ def run_wr(ctx, what, seed, n, guard=False, mm=2, big=False, timeout=1500, nomem
         # cut the partial scenario's events but keep its WrInit so that the Fault is attributed
         last_init = max([i for i, l in enumerate(lines) if '"WrInit"' in l] or [0])
         keep = lines[:last_init + 1]
+        if not re.search(r"^(panic:|fatal error:|unexpected fault address)", p.stderr, re.M):
+            raise Infra("vh wr died without a Go panic message (rc=%s): killed from outside? %s" % (p.returncode, p.stderr[-300:]))
         msg, kind = classify_crash(p.stderr)
         if kind == "infra":
             raise Infra("vh wr crashed for a reason unrelated to freed memory:\n" + p.stderr[-3000:])
